@@ -743,6 +743,28 @@ def run_worker(sc: Dict[str, Any], register: Optional[Callable[..., None]] = Non
                 propagate_exceptions=bool(sc.get("propagate", True)), run_startup=False, ack_time=AcknowledgeType(sc.get("ack_type", "when_saved"))))
         else:
             lt = asyncio.ensure_future(r.listen(ev))
+        if sc.get("neighbour"):
+            # ANOTHER worker (its own broker, its own receiver) lives in the same process / event loop and is busy with a task that
+            # never ends; it is not stopped.  What the observed receiver does, and when it returns, is its own business only.
+            from taskiq.brokers.inmemory_broker import InmemoryResultBackend as _IRB
+
+            class _NB(AsyncBroker):
+                async def kick(self, message: Any) -> None:
+                    return None
+
+                async def listen(self):  # type: ignore[override]
+                    yield b2.formatter.dumps(AsyncKicker("neighbour.forever", b2, {})._prepare_message()).message
+                    await asyncio.Event().wait()
+
+            b2 = _NB()
+            b2.result_backend = _IRB()
+
+            async def forever() -> None:
+                await asyncio.Event().wait()
+
+            forever.__module__ = __name__
+            b2.register_task(forever, task_name="neighbour.forever")
+            asyncio.ensure_future(Receiver(b2, executor=Inline(), max_async_tasks=2, run_startup=False).listen(asyncio.Event()))
         done, _ = await asyncio.wait({lt}, timeout=sc.get("horizon", 100.0))
         if lt in done:
             tr.add("return")
